@@ -612,7 +612,7 @@ pub mod fastq {
             [C02,C03,C04,C05,C06|fastq.search.frame] final(self).same_io(old(self)) && final(self).buf_pos.pos.0 == old(self).buf_pos.pos.0,
             [C02,C03,C04|fastq.search.found] r matches Ok(true) ==> final(self).buf_pos.valid(final(self).b()) && final(self).buf_pos.pos.1 < final(self).b().len()
                 && final(self).state == old(self).state && final(self).incomplete_pos == old(self).incomplete_pos,
-            [C02,C03,C04|fastq.search.incomplete] r matches Ok(false) ==> (final(self).incomplete_pos matches Some(k) && stuck(final(self).b(), final(self).buf_pos, rp(k)))
+            [C02,C03,C04,C17|fastq.search.incomplete] r matches Ok(false) ==> (final(self).incomplete_pos matches Some(k) && stuck(final(self).b(), final(self).buf_pos, rp(k)))
                 && final(self).state == old(self).state,
             [C02,C03,C14,C17|fastq.search.error] r matches Err(e) ==> final(self).buf_pos.complete(final(self).b()) && final(self).buf_pos.pos.1 < final(self).b().len()
                 && verr(e, final(self).b(), final(self).buf_pos.pos.0 as int, final(self).position.line as int)
@@ -621,7 +621,7 @@ pub mod fastq {
         proof { reveal(chain_body); lemma_chain_bounds(self.b(), self.buf_pos.pos.0 as int); }
 //@end
 
-//@fn fastq::Reader::search_incomplete ret=r tags=C02,C06
+//@fn fastq::Reader::search_incomplete ret=r tags=C02,C06,C17
 //@spec
         requires
             old(self).buf_reader.wf(),
@@ -631,7 +631,7 @@ pub mod fastq {
             [C02,C03,C04,C05,C06|fastq.search_incomplete.frame] final(self).same_io(old(self)) && final(self).buf_pos.pos.0 == old(self).buf_pos.pos.0,
             [C02,C03,C04|fastq.search_incomplete.found] r matches Ok(None) ==> final(self).buf_pos.valid(final(self).b()) && final(self).buf_pos.pos.1 < final(self).b().len()
                 && final(self).state == old(self).state && final(self).incomplete_pos is None,
-            [C02,C03,C04|fastq.search_incomplete.incomplete] r matches Ok(Some(k)) ==> stuck(final(self).b(), final(self).buf_pos, rp(k)) && rp(k) >= rp(pos)
+            [C02,C03,C04,C17|fastq.search_incomplete.incomplete] r matches Ok(Some(k)) ==> stuck(final(self).b(), final(self).buf_pos, rp(k)) && rp(k) >= rp(pos)
                 && final(self).incomplete_pos == Some(k) && final(self).state == old(self).state,
             [C02,C03,C04,C14,C17|fastq.search_incomplete.error] r matches Err(e) ==> final(self).buf_pos.complete(final(self).b()) && final(self).buf_pos.pos.1 < final(self).b().len()
                 && verr(e, final(self).b(), final(self).buf_pos.pos.0 as int, final(self).position.line as int)
@@ -860,7 +860,7 @@ pub mod fastq {
             invariant
                 [C02,C03,C04,C05,C06|fastq.resume.inv.frame] self.wf0() && self.filled() && self.f() == old(self).f() && self.gpos() == old(self).gpos()
                     && self.position == old(self).position && self.coords() && self.position.line + 4 <= u64::MAX,
-                [C02,C03,C04|fastq.resume.inv.stuck] stuck(self.b(), self.buf_pos, rp(incomplete_pos)),
+                [C02,C03,C04,C17|fastq.resume.inv.stuck] stuck(self.b(), self.buf_pos, rp(incomplete_pos)),
                 [C14|fastq.resume.inv.errs] self.buf_reader.errs() == old(self).buf_reader.errs(),
                 [C02,C03,C04,C05,C06|fastq.resume.inv.state] self.state == old(self).state,
                 [C02,C03,C04|fastq.resume.inv.no_compaction] !make_room ==> self.base() == old(self).base() && self.buf_pos.pos.0 == old(self).buf_pos.pos.0
@@ -917,6 +917,7 @@ pub mod fastq {
             [C02,C03,C04,C06|fastq.next.end] r is None ==> final(self).buf_reader.errs() == old(self).buf_reader.errs()
                 && (old(self).state == State::Finished || old(self).poisoned() || !old(self).clean() || end_ok(old(self).f(), old(self).cursor())),
             [C02,C04,C20|fastq.next.end_is_sticky] old(self).state == State::Finished ==> r is None,
+            [C14|fastq.next.source_errors_are_not_swallowed] (r is None || r matches Some(Ok(_))) ==> final(self).buf_reader.errs() == old(self).buf_reader.errs(),
             [C02,C03,C04,C06,C12|fastq.next.record] r matches Some(Ok(rec)) ==> final(self).buf_reader.errs() == old(self).buf_reader.errs()
                 && old(self).state != State::Finished
                 && rec.buffer@ == final(self).b() && *rec.buf_pos == final(self).buf_pos && rec.buf_pos.valid(rec.buffer@)
@@ -1323,6 +1324,7 @@ trait RecordD {
             [C03,C05|fastq.read_set.position] r matches Some(Ok(_)) && old(self).clean() && !old(self).poisoned() && final(self).state != State::Finished ==>
                 final(self).position.byte == gstart(old(self).f(), old(self).cursor(), final(rset).n())
                 && final(self).position.line == true_line(old(self).f(), final(self).position.byte as int),
+            [C14|fastq.read_set.source_errors_are_not_swallowed] (r is None || r matches Some(Ok(_))) ==> final(self).buf_reader.errs() == old(self).buf_reader.errs(),
             [C09|fastq.read_set.capacity_monotone] final(self).buf_reader.cap() >= old(self).buf_reader.cap(),
             [C09|fastq.read_set.plain_sets_grow_only_when_a_record_does_not_fit] n_records is None && old(self).clean() && !old(self).poisoned()
                 && final(self).buf_reader.cap() > old(self).buf_reader.cap() ==>
@@ -1350,6 +1352,7 @@ trait RecordD {
                 [C04|fastq.read_set.inv.below_requested_count] n_records matches Some(m) ==> rset.n() < m,
                 [C04,C06|fastq.read_set.inv.no_compaction_once_a_record_is_held] self.state != State::Finished && self.incomplete_pos is Some && rset.n() > 0 ==> !is_new,
             invariant
+                [C14|fastq.read_set.inv.no_source_error_so_far] self.buf_reader.errs() == old(self).buf_reader.errs(),
                 [C03,C04,C05,C06|fastq.read_set.inv.state] self.rs_a(old(self), rset, is_new, n_records),
                 [C03,C04,C05,C06|fastq.read_set.inv.positions_valid] self.rs_b(rset),
                 [C03,C04|fastq.read_set.inv.records_are_the_next_k] self.rs_c(old(self), rset),
@@ -1373,7 +1376,7 @@ trait RecordD {
                 lemma_chain_bounds(bb, s);
                 if bb.len() > 0 && c4(bb, s) < bb.len() && self.clean() { lemma_group_lift(ff, a, bb, s); }
             }
-//@at depth=5 kw=rset nth=0 expect="rset\.\w+\.clear\(\);\s*return Some\(Err\("
+//@after /Err\(e\) => \{/ nth=0
                         proof {
                             if self.buf_reader.cap() > cap_before {
                                 grow_at = k0;
@@ -1386,7 +1389,7 @@ trait RecordD {
                                 assert(run_ok(ff, p0, k0) && fmt_err(e, ff, gstart(ff, p0, k0), true_line(ff, gstart(ff, p0, k0))));
                             }
                         }
-//@at depth=5 kw=rset nth=1 expect="rset\.\w+\.clear\(\);\s*return Some\(Err\("
+//@after /Err\(e\) => \{/ nth=1
                         proof {
                             let (ff, p0) = (old(self).f(), old(self).cursor());
                             if old(self).clean() && !old(self).poisoned() && fmt_variant(e) {
